@@ -210,3 +210,21 @@ Proof.
   split; [split; [apply pm_route_preserving | exact I]|].
   split; vm_compute; reflexivity.
 Qed.
+
+(* ---- unsimplified operators: repeated Pauli strings add up (the value is the sum over ALL terms) ---- *)
+Lemma diag_value_app a b k : (diag_value (a ++ b) k == diag_value a k + diag_value b k)%Q.
+Proof.
+  unfold diag_value. induction a as [|[c t] a IH]; simpl.
+  - ring.
+  - rewrite IH. ring.
+Qed.
+Lemma cexpect_app a b s : (cexpect (a ++ b) s == cexpect a s + cexpect b s)%Q.
+Proof.
+  unfold cexpect. rewrite !Qred_correct. induction a as [|[c t] a IH]; simpl.
+  - ring.
+  - rewrite IH. ring.
+Qed.
+Lemma repeated_terms_example :
+  (diag_value [(1, [(0, PZ)]); (1 # 2, [(0, PZ)]); (2, []); (1, []); (3 # 2, [(1, PZ)]); (-3 # 2, [(1, PZ)])] [true; true] == 3 # 2)%Q
+  /\ (cexpect [(1, [(0, PZ)]); (1 # 2, [(0, PZ)]); (2, []); (1, [])] [1%N] == 3 # 2)%Q.
+Proof. split; vm_compute; reflexivity. Qed.
